@@ -16,6 +16,7 @@ package main
 
 import (
 	"bytes"
+	"crypto/sha256"
 	"errors"
 	"fmt"
 	"io"
@@ -43,15 +44,18 @@ type msgJS struct {
 }
 
 type caseJS struct {
-	Mode  int     `json:"mode"`
-	Input []byte  `json:"input,omitempty"`
-	Msgs  []msgJS `json:"msgs,omitempty"`
-	ID    int64   `json:"id,omitempty"`
-	Data  []byte  `json:"data,omitempty"`
-	Gen   string  `json:"gen,omitempty"` // how to regenerate a payload too large to store
-	Kind  string   `json:"kind,omitempty"` // reuse stream: which decoder
-	Seq   [][]byte `json:"seq,omitempty"`  // reuse stream: inputs decoded one after another into the same value
-	Why   string  `json:"why,omitempty"`
+	Mode    int      `json:"mode"`
+	Input   []byte   `json:"input,omitempty"`
+	Msgs    []msgJS  `json:"msgs,omitempty"`
+	ID      int64    `json:"id,omitempty"`
+	Data    []byte   `json:"data,omitempty"`
+	Gen     string   `json:"gen,omitempty"`      // how to regenerate a payload too large to store
+	GenKind string   `json:"gen_kind,omitempty"` // large gzip member: content generator (fill, random, ratio2, ratio3)
+	GenN    int      `json:"gen_n,omitempty"`    // ... decompressed size
+	GenSeed uint64   `json:"gen_seed,omitempty"` // ... PRNG seed (fill: the byte)
+	Kind    string   `json:"kind,omitempty"`     // reuse stream: which decoder
+	Seq     [][]byte `json:"seq,omitempty"`      // reuse stream: inputs decoded one after another into the same value
+	Why     string   `json:"why,omitempty"`
 }
 
 func errCode(err error) int {
@@ -109,6 +113,16 @@ func common(kind string, status int, sh, ix int, js caseJS) {
 	if status == 12 || status == 13 {
 		c.Violate(kind+"-unclassified-error", fmt.Sprintf("%s on %s returned an unclassified error (code %d)", kind, short(js.Input), status), sh, ix, js)
 	}
+}
+
+// guard runs a piece of input construction that calls into the implementation (bin.Buffer
+// Put*, Encode of a valid value, ...): a panic there is an oracle violation, not a crash.
+func guard(what string, f func()) bool {
+	if p, v := hx.Recover(f); p {
+		c.Violate("panic-building-input", fmt.Sprintf("%s panicked: %v", what, v), -1, 0, caseJS{Why: what})
+		return false
+	}
+	return true
 }
 
 // ---------- container ----------
@@ -326,6 +340,13 @@ func unencCases(why string, id int64, data, trail []byte) {
 // gzOracle runs the decompressor library independently on the TL bytes payload of in:
 // header accepted?, bytes delivered (at most limit+1 are pulled), did it stop with an error.
 func gzOracle(in []byte) (framed bool, head bool, stream []byte, serr bool) {
+	if p, _ := hx.Recover(func() { framed, head, stream, serr = gzOracle1(in) }); p {
+		return false, false, nil, false // the framing decoders panicked: GZIP.Decode itself reports it
+	}
+	return
+}
+
+func gzOracle1(in []byte) (framed bool, head bool, stream []byte, serr bool) {
 	b := &bin.Buffer{Buf: append([]byte{}, in...)}
 	if err := b.ConsumeID(proto.GZIPTypeID); err != nil {
 		return false, false, nil, false
@@ -350,12 +371,18 @@ func b2i(b bool) int {
 }
 
 // gzipDecode: expectBomb/expectOK drive the oracle for constructed members.
-func gzipDecode(why string, in []byte, wantData []byte, wantLen int, gen string) int {
+func gzipDecode(why string, in []byte, wantData []byte, wantLen int, gen string, wantSum ...[32]byte) int {
 	c.Obs.Evaluations++
 	js := caseJS{Mode: 6, Input: in, Why: why, Gen: gen}
 	emit := len(in) <= 12000
 	if !emit {
 		js.Input = nil
+	}
+	if pendingGen != nil {
+		js.GenKind, js.GenN, js.GenSeed = pendingGen.GenKind, pendingGen.GenN, pendingGen.GenSeed
+		if len(js.Input) > 4096 {
+			js.Input = nil
+		}
 	}
 	var g proto.GZIP
 	var err error
@@ -409,7 +436,7 @@ func gzipDecode(why string, in []byte, wantData []byte, wantLen int, gen string)
 	if wantLen >= 0 { // constructed member with a known decompressed size
 		switch {
 		case wantLen < limit:
-			if status != 0 || len(g.Data) != wantLen || (wantData != nil && !bytes.Equal(g.Data, wantData)) {
+			if status != 0 || len(g.Data) != wantLen || (wantData != nil && !bytes.Equal(g.Data, wantData)) || (len(wantSum) == 1 && sha256.Sum256(g.Data) != wantSum[0]) {
 				c.Violate("gzip-roundtrip", fmt.Sprintf("GZIP round trip of %d bytes: status %d, %d bytes back", wantLen, status, len(g.Data)), sh, ix, js)
 			}
 		default:
@@ -442,32 +469,91 @@ func gzipEncode(why string, data []byte, gen string) []byte {
 	}
 	if emit {
 		// oracle input for the model: the compressed bytes the library produced
-		bb := &bin.Buffer{Buf: append([]byte{}, b.Buf...)}
-		_ = bb.ConsumeID(proto.GZIPTypeID)
-		gz, _ := bb.Bytes()
+		var gz []byte
+		if !guard("bin.Buffer ConsumeID/Bytes on an encoded GZIP", func() {
+			bb := &bin.Buffer{Buf: append([]byte{}, b.Buf...)}
+			_ = bb.ConsumeID(proto.GZIPTypeID)
+			gz, _ = bb.Bytes()
+		}) {
+			return b.Buf
+		}
 		c.Case(hx.Tuple("7", hx.Bytes(b.Buf), "0", "[]", hx.Bytes(data), hx.List([]string{hx.Tuple("0", "0", "0", hx.Bytes(gz))})), js)
 	}
 	c.Nontrivial(fmt.Sprintf("ge%d:%x", len(data), data[:min(len(data), 64)]))
 	return b.Buf
 }
 
-// zerosMember builds GZIP TL bytes whose member decompresses to n bytes of fill, streaming.
-func fillMember(n int, fill byte) []byte {
+
+// genContent returns the chunk generator of a named content kind, driven by its own PRNG so
+// that a replay file (kind, size, seed) regenerates the member exactly.
+func genContent(kind string, seed uint64) func(p []byte) {
+	r := hx.NewRand(seed)
+	switch kind {
+	case "fill":
+		return func(p []byte) {
+			for i := range p {
+				p[i] = byte(seed)
+			}
+		}
+	case "ratio2": // ~2:1 -- 64 random bytes, 64 zero bytes, ...
+		return func(p []byte) {
+			for i := 0; i < len(p); i += 128 {
+				e := min(i+64, len(p))
+				_, _ = r.Read(p[i:e])
+				for j := e; j < min(i+128, len(p)); j++ {
+					p[j] = 0
+				}
+			}
+		}
+	case "ratio3": // ~3:1 -- every third 256-byte block random, the rest a constant
+		return func(p []byte) {
+			for i := 0; i < len(p); i += 768 {
+				e := min(i+256, len(p))
+				_, _ = r.Read(p[i:e])
+				for j := e; j < min(i+768, len(p)); j++ {
+					p[j] = 0x41
+				}
+			}
+		}
+	}
+	return func(p []byte) { _, _ = r.Read(p) } // random: incompressible
+}
+
+// memberCase builds the member (kind, n, seed), decodes it and judges it; the replay file
+// carries the three generator parameters instead of megabytes of input.
+func memberCase(why, kind string, n int, seed uint64) int {
+	tl, sum := streamMember(n, genContent(kind, seed))
+	pendingGen = &caseJS{GenKind: kind, GenN: n, GenSeed: seed}
+	defer func() { pendingGen = nil }()
+	return gzipDecode(why, tl, nil, n, fmt.Sprintf("streamMember(%d, genContent(%q, %d)), %d compressed bytes", n, kind, seed, len(tl)), sum)
+}
+
+var pendingGen *caseJS
+
+// streamMember builds GZIP TL bytes whose member decompresses to n bytes produced chunk by
+// chunk by gen (1 MiB at a time, nothing of size n is allocated except the compressed
+// output), and the SHA-256 of that content.
+func streamMember(n int, gen func(p []byte)) (tl []byte, sum [32]byte) {
 	var buf bytes.Buffer
 	w := gzip.NewWriter(&buf)
-	chunk := bytes.Repeat([]byte{fill}, 1<<20)
+	h := sha256.New()
+	chunk := make([]byte, 1<<20)
 	for left := n; left > 0; {
 		k := min(left, len(chunk))
+		gen(chunk[:k])
 		_, _ = w.Write(chunk[:k])
+		h.Write(chunk[:k])
 		left -= k
 	}
 	_ = w.Close()
+	copy(sum[:], h.Sum(nil))
 	var b bin.Buffer
-	b.PutID(proto.GZIPTypeID)
-	b.PutBytes(buf.Bytes())
-	return b.Buf
+	guard("bin.Buffer PutID/PutBytes of a gzip member", func() {
+		b.PutID(proto.GZIPTypeID)
+		b.PutBytes(buf.Bytes())
+	})
+	return b.Buf, sum
 }
-
 
 // ---------- reused (dirty) decode targets ----------
 
@@ -561,7 +647,9 @@ func newReuseTarget(kind string) reuseTarget {
 			return decodeInto(u, in, func() robs {
 				return robs{Msgs: []msgJS{{u.ID, u.SeqNo, u.Bytes, append([]byte{}, u.Body...)}}}
 			})
-		}, func() ([]byte, []msgJS) { return nil, []msgJS{{long.ID, long.SeqNo, long.Bytes, append([]byte{}, long.Body...)}} }}
+		}, func() ([]byte, []msgJS) {
+			return nil, []msgJS{{long.ID, long.SeqNo, long.Bytes, append([]byte{}, long.Body...)}}
+		}}
 	default: // container
 		long := &proto.MessageContainer{}
 		cp := func(c *proto.MessageContainer) []msgJS {
@@ -625,6 +713,13 @@ func reuseSeq(kind string, seq [][]byte, emit bool) {
 // encodedFor builds one valid input for the reuse stream with a payload of n bytes.
 func encodedFor(r *hx.Rand, kind string, n int) []byte {
 	var b bin.Buffer
+	guard("Encode of a valid "+kind, func() { encodedFor1(r, kind, n, &b) })
+	return b.Buf
+}
+
+func encodedFor1(r *hx.Rand, kind string, n int, bp *bin.Buffer) {
+	var b bin.Buffer
+	defer func() { *bp = b }()
 	switch kind {
 	case "unencrypted":
 		_ = proto.UnencryptedMessage{MessageID: int64(r.U64()), MessageData: r.Bytes(n)}.Encode(&b)
@@ -642,7 +737,6 @@ func encodedFor(r *hx.Rand, kind string, n int) []byte {
 		}
 		_ = mc.Encode(&b)
 	}
-	return b.Buf
 }
 
 func randMsg(r *hx.Rand, maxBody int) msgJS {
@@ -681,6 +775,12 @@ func mutate(r *hx.Rand, in []byte) []byte {
 
 func main() {
 	c = hx.Start("C22", "Run.Check_C22", 350)
+	defer func() { // a panic that escaped a per-case wrapper becomes a violation, obs.json is still written
+		if v := recover(); v != nil {
+			c.Violate("panic-outside-case-wrapper", fmt.Sprintf("a call into the implementation panicked outside a case wrapper: %v", v), -1, 0, nil)
+			c.Finish()
+		}
+	}()
 	var rp caseJS
 	if c.LoadReplay(&rp) {
 		switch rp.Mode {
@@ -704,6 +804,9 @@ func main() {
 			if rp.Input != nil {
 				st := gzipDecode("replay", rp.Input, nil, -1, "")
 				fmt.Printf("replay: GZIP.Decode(%s) -> status=%d\n", short(rp.Input), st)
+			} else if rp.GenKind != "" {
+				st := memberCase("replay", rp.GenKind, rp.GenN, rp.GenSeed)
+				fmt.Printf("replay: GZIP.Decode of a regenerated member (%s content, %d decompressed bytes, seed %d) -> status=%d\n", rp.GenKind, rp.GenN, rp.GenSeed, st)
 			} else {
 				fmt.Println("replay: large gzip payload, regenerate with:", rp.Gen)
 			}
@@ -735,12 +838,14 @@ func main() {
 	{ // headers claiming lengths around the limit, negative and huge counts
 		hdr := func(count int, bytesField int, body int) []byte {
 			var b bin.Buffer
-			b.PutID(proto.MessageContainerTypeID)
-			b.PutInt(count)
-			b.PutLong(77)
-			b.PutInt(5)
-			b.PutInt(bytesField)
-			b.Put(make([]byte, body))
+			guard("bin.Buffer Put* of a container header", func() {
+				b.PutID(proto.MessageContainerTypeID)
+				b.PutInt(count)
+				b.PutLong(77)
+				b.PutInt(5)
+				b.PutInt(bytesField)
+				b.Put(make([]byte, body))
+			})
 			return b.Buf
 		}
 		for _, x := range [][3]int{{1, msgLimit + 1, 8}, {1, msgLimit, 8}, {1, -1, 8}, {1, -2147483648, 0}, {1, 2147483647, 0}, {-1, 0, 0}, {-2147483648, 0, 0},
@@ -761,17 +866,30 @@ func main() {
 
 	// ----- gzip boundaries and bombs -----
 	for _, n := range []int{limit - 1, limit, limit + 1} {
-		gzipDecode("limit-boundary", fillMember(n, 0), nil, n, fmt.Sprintf("fillMember(%d, 0)", n))
+		memberCase("limit-boundary", "fill", n, 0)
 	}
-	gzipDecode("limit-boundary", fillMember(limit-1, 0xab), nil, limit-1, "fillMember(limit-1, 0xab)")
+	memberCase("limit-boundary", "fill", limit-1, 0xab)
 	{ // encode + decode of limit-1 bytes through GZIP.Encode itself
 		d := bytes.Repeat([]byte{7}, limit-1)
 		if enc := gzipEncode("limit-boundary", d, "bytes.Repeat(7, limit-1)"); enc != nil {
 			gzipDecode("limit-boundary", append(enc, 1, 2, 3, 4), d, limit-1, "GZIP{bytes.Repeat(7, limit-1)}.Encode ++ 01020304")
 		}
 	}
+	// incompressible (random) and low-ratio content at and above the limit: the cap must not
+	// depend on how well the payload compresses; success => length < limit and same content
+	{
+		type gm struct {
+			kind string
+			n    int
+		}
+		for _, x := range []gm{{"random", limit - 1}, {"random", limit}, {"random", limit + 1}, {"random", 12 << 20},
+			{"ratio2", limit - 1}, {"ratio2", limit}, {"ratio2", 12 << 20}, {"ratio3", limit + 1}, {"ratio3", 13 << 20},
+			{"random", 1 << 20}, {"ratio2", 5 << 20}} {
+			memberCase("incompressible-"+x.kind, x.kind, x.n, r.U64())
+		}
+	}
 	bomb := c.N(1<<30, 4<<30)
-	gzipDecode("zeros-bomb", fillMember(bomb, 0), nil, bomb, fmt.Sprintf("fillMember(%d, 0)", bomb))
+	memberCase("zeros-bomb", "fill", bomb, 0)
 	c.Note(fmt.Sprintf("zeros bomb of %d decompressed bytes is streamed through the compressor and decoded under the Go oracle only (its ~1 MB of compressed bytes is not written out for Coq); limit-1/limit/limit+1 members go to Coq with the decompressor's behaviour as oracle input (length only)", bomb))
 	// two concatenated members (multistream) and trailing garbage after a member
 	{
@@ -784,8 +902,10 @@ func main() {
 		}
 		wrap := func(z []byte) []byte {
 			var b bin.Buffer
-			b.PutID(proto.GZIPTypeID)
-			b.PutBytes(z)
+			guard("bin.Buffer PutID/PutBytes of a gzip member", func() {
+				b.PutID(proto.GZIPTypeID)
+				b.PutBytes(z)
+			})
 			return b.Buf
 		}
 		gzipDecode("multistream", wrap(append(one([]byte("abc")), one([]byte("defg"))...)), []byte("abcdefg"), 7, "")
@@ -827,7 +947,7 @@ func main() {
 			mc.Messages = append(mc.Messages, proto.Message{ID: m.ID, SeqNo: m.SeqNo, Bytes: m.Bytes, Body: m.Body})
 		}
 		var b bin.Buffer
-		_ = mc.Encode(&b)
+		guard("MessageContainer.Encode of valid messages", func() { _ = mc.Encode(&b) })
 		enc := append(b.Buf, trail...)
 		containerDecode("valid", enc, true)
 		containerDecode("mutated", mutate(r, enc), true)
@@ -847,11 +967,13 @@ func main() {
 		body := r.Bytes(r.Intn(80))
 		resultCases("random", int64(r.U64()), body)
 		var b bin.Buffer
-		_ = (&proto.Result{RequestMessageID: int64(r.U64()), Result: body}).Encode(&b)
+		guard("Result.Encode", func() { _ = (&proto.Result{RequestMessageID: int64(r.U64()), Result: body}).Encode(&b) })
 		resultDecode("mutated", mutate(r, b.Buf))
 		unencCases("random", int64(r.U64()), r.Bytes(r.Intn(80)), r.Bytes(r.Intn(5)))
 		var ub bin.Buffer
-		_ = proto.UnencryptedMessage{MessageID: int64(r.U64()), MessageData: r.Bytes(r.Intn(40))}.Encode(&ub)
+		guard("UnencryptedMessage.Encode", func() {
+			_ = proto.UnencryptedMessage{MessageID: int64(r.U64()), MessageData: r.Bytes(r.Intn(40))}.Encode(&ub)
+		})
 		unencDecode("mutated", mutate(r, ub.Buf))
 	}
 	// ----- gzip: random payloads, corrupted members -----
